@@ -8,7 +8,7 @@ META = {
     'technique': 'Lean 4 refinement proof (invariant by induction over all call histories, incl. the counter fold at 0x7fffffff) of a model of mlog.c; the model is tied to the C by translation (tools/c2lean2.py regenerates vmlog/vmlog_nice/mlog_clear/get_line/mlog_get_line/mlog_dump on every run; Props/C20Tie.lean proves them equal to the model on every state, Props/C20Gen.lean restates the property about the generated code) and by differential runs',
     'level_text': 'For every history of mlog/mlog_nice/mlog_clear/mlog_get_line(int)/mlog_dump of any length the model returns exactly the last min(n,256) messages oldest first, NULL for every other k incl. negative, '
                   'nice records iff fewer than 256 so far; the invariant is preserved by the fold of the counter so the 2^31 wrap is covered by proof, and exercised on the real code by placing the counter just below the fold.',
-    'level_note': 'Trusted: Lean kernel (standard axioms; one bv_decide certificate axiom per *_generated* lemma of Props/C20Tie.lean, none in the C20 theorems themselves); tools/c2lean2.py + clang AST (tie T2: the static log as a 32-bit counter plus 8192 bytes of memory with the x86-64 layout of struct mlog_line, va_arg reads as inputs, strdup_printf/fprintf as the environment (fprintf's return value an input indexed by the iteration), the loop of mlog_dump a recursive definition tied by induction for all 256 lines; the variadic wrappers mlog/mlog_nice and the formatting are not translated); hand model of mlog.c validated each run against the real code (harness includes mlog.c; counter set near the fold through the included static); '
+    'level_note': 'Trusted: Lean kernel (standard axioms; one bv_decide certificate axiom per *_generated* lemma of Props/C20Tie.lean, none in the C20 theorems themselves); tools/c2lean2.py + clang AST (tie T2: the static log as a 32-bit counter plus 8192 bytes of memory with the x86-64 layout of struct mlog_line, va_arg reads as inputs, strdup_printf/fprintf as the environment (the value fprintf returns is an input indexed by the iteration), the loop of mlog_dump a recursive definition tied by induction for all 256 lines; the variadic wrappers mlog/mlog_nice and the formatting are not translated); hand model of mlog.c validated each run against the real code (harness includes mlog.c; counter set near the fold through the included static); '
                   'printf formatting/va_arg are libc and not modelled (records are compared after formatting by the real code).',
     'design_ref': '§6 C20',
 }
